@@ -3,7 +3,7 @@ from vlib import g1check
 
 PROPERTY = "C02"
 LEVEL = "exploration"
-RULE = ("(Fixed scenario: 6000 / 60000 inspections of the calling thread's own frames, two managers active, while another thread does nothing but walk those frames through sys._current_frames() with a switch interval of 10 us: every result exact, no warning.) (Also between calls: an opcode-level trace function inspects the frame whenever its next instruction is a backward jump - the back edge of a loop, where signals are handled and threads switched.) (Among the class managers: one whose plain-def __aexit__ probes and then returns another manager's __aexit__ coroutine - the exit CALL has returned while the exit is still awaited.) Same generated program space as C01 (G1 with-programs + the systematic exit-shape table), for plain functions, "
+RULE = ("(Fixed scenario: a SIGALRM handler extracts the interrupted stack 400 / 6000 times, timers swept over a loop of empty with / async with statements: whatever instant is hit, every entry's obj is the manager or None - never the handler's own argument.) (Fixed scenario: 6000 / 60000 inspections of the calling thread's own frames, two managers active, while another thread does nothing but walk those frames through sys._current_frames() with a switch interval of 10 us: every result exact, no warning.) (Also between calls: an opcode-level trace function inspects the frame whenever its next instruction is a backward jump - the back edge of a loop, where signals are handled and threads switched.) (Among the class managers: one whose plain-def __aexit__ probes and then returns another manager's __aexit__ coroutine - the exit CALL has returned while the exit is still awaited.) Same generated program space as C01 (G1 with-programs + the systematic exit-shape table), for plain functions, "
         "generators, coroutines and async generators; the frame under test is inspected WHILE RUNNING through "
         "extract_since(frame) called from nested code: from probe calls in the body and from inside every "
         "__enter__/__exit__/__aenter__/__aexit__ (before and after their own suspension), on CPython 3.9-3.12. Oracle: the "
@@ -51,13 +51,39 @@ def sampled(out, n):
     out.note_case(case, True, classes=["sampled_by_another_thread"], n_eval=n * len(ALL))
 
 
+def signal_after_exit(out, n):
+    """fixed scenario: a SIGALRM handler that extracts the interrupted stack, timers swept over a loop of empty sync and
+    async with statements - every entry's obj is the manager or None"""
+    from vlib.workers import ALL, WorkerDied, WorkerSet
+    case = {"signal_handler_between_with_instructions": True}
+    with WorkerSet(ALL, hooks=False) as ws:
+        for interp in ALL:
+            try:
+                res = ws[interp].request({"op": "modes.signal_after_exit", "n": n}, timeout=900)
+            except WorkerDied as ex:
+                out.violation("interpreter %s died (exit %r)" % (interp, ex.returncode), case, interp)
+                continue
+            out.per_interp[interp] += 1
+            for k, v in res["stats"].items():
+                out.extra["signal_handler." + k] = out.extra.get("signal_handler." + k, 0) + v
+            if res["obs"]:
+                out.violation("%s on %s: %r" % (res["obs"][0]["kind"], interp, res["obs"][0]), case, interp)
+    out.note_case(case, True, classes=["signal_handler_between_with_instructions"], n_eval=n * len(ALL))
+
+
 def run(ctx):
     out = g1check.run(ctx, CFG, quick_n=480, thorough_n=60000, quick_table=2200, quick_shards=16)
     sampled(out, ctx.pick(6000, 60000))
+    signal_after_exit(out, ctx.pick(400, 6000))
     return out
 
 
 def replay(ctx, data):
+    if data.get("case", {}).get("signal_handler_between_with_instructions"):
+        from vlib.driver import Outcome
+        out = Outcome()
+        signal_after_exit(out, 400)
+        return out
     if data.get("case", {}).get("sampled_by_another_thread"):
         from vlib.driver import Outcome
         out = Outcome()
